@@ -13,7 +13,9 @@ EXPLANATION = (
     "Add/AddAssign reach add_state, Sub/SubAssign/remove reach invert_state then add_state with the right operands, "
     "insert reaches the hash then add_state; (C14.3) constants evaluated from the compiled program: 8 distinct primes, "
     "each in (2^31, 2^32), columns*4 == bytes == 32; (C14.4) the key-value wrapper frames puts and tombstones with "
-    "distinct constant tags followed by key and little-endian timestamp (and value for puts).  ORIGIN/ORDER + const eval.")
+    "distinct constant tags followed by key and little-endian timestamp (and value for puts); (C14.5) the column loops of "
+    "add_state, invert_state and hash_to_state are total: the iterator drops no element, every iteration stores its column and the "
+    "loop has no other exit; invert_state stores prime[i] - column[i] for the same i.  ORIGIN/ORDER/MUSTPASS + const eval.")
 NOT_DECIDED = "the algebraic laws over values (commutativity, inverse, union) and agreement with the published definition"
 ASSUMPTIONS = ["sha3::Sha3_256 implements SHA3-256"]
 
@@ -25,6 +27,7 @@ def rules(ctx):
     c142(ctx)
     c143(ctx)
     c144(ctx)
+    c145(ctx)
 
 
 def state_sources(f, op):
@@ -302,3 +305,119 @@ def c144(ctx):
                     order[name] = seq
     ctx.check(R, "sst::setsum::Setsum", "piece-order", order.get("put") == ["tag", "key", "timestamp", "value"] and order.get("del") == ["tag", "key", "timestamp"],
               "frames are [tag, key, timestamp(le), value] and [tag, key, timestamp(le)]", "frame layouts are %s" % order)
+
+
+DROPPING_ADAPTERS = K.DROPPING_ADAPTERS
+
+
+def column_loops(f):
+    """[(head pt, Some-edge target block, iterator type)] for every `for` loop of f."""
+    out = []
+    for pt in P.call_points(f, r"Iterator(?: for [^>]*)?>::next$|core::iter::range::next$|::next$"):
+        if not P.reach(f, P.after(f, pt), [pt]):
+            continue
+        t = P.term_at(f, pt)
+        ity = f.locals[t["args"][0]["pl"]["l"]] if t["args"] and t["args"][0].get("pl") else "?"
+        # the &mut T argument is a reborrow of the iterator local
+        base = K.ref_base(f, t["args"][0])
+        if base is not None:
+            ity = f.locals[base]
+        nb = [s_ for _l, s_ in f.blocks[pt[0]].succs]
+        some = None
+        for b in nb:
+            blk = f.blocks[b]
+            if blk.term["t"] == "switch":
+                for lab, tgt in blk.succs:
+                    if lab == "sw:1":
+                        some = tgt
+        out.append((pt, some, ity))
+    return out
+
+
+def c145(ctx):
+    R = "C14.5"
+    ctx.declare(R, "the per-column loops visit every column: no element-dropping iterator, a column store in every iteration, no early exit")
+    n = 0
+    for name in ("add_state", "invert_state", "hash_to_state"):
+        f = ctx.fn(R, S + name)
+        if not f:
+            continue
+        loops = column_loops(f)
+        ctx.check(R, f, "one-column-loop", len(loops) == 1, "%s has one loop over the columns" % name, "expected one column loop in %s, found %d" % (name, len(loops)))
+        for head, some, ity in loops:
+            n += 1
+            ctx.check(R, f, "iterator-keeps-every-column", not DROPPING_ADAPTERS.search(ity) and some is not None,
+                      "the loop's iterator (%s) yields every column" % ity[:80],
+                      "the column loop runs over `%s`, an iterator that can stop early or skip columns" % ity[:120], pt=head)
+            if "Range<" in ity:
+                ok = False
+                base = K.ref_base(f, P.term_at(f, head)["args"][0])
+                for q in P.origins(f, {"k": "copy", "pl": {"l": base, "p": []}}) if base is not None else []:
+                    if q["k"] == "agg" and q.get("adt", "").endswith("range::Range"):
+                        lo, hi = q["st"]["rv"]["ops"]
+                        ok = lo.get("k") == "const" and lo["c"].get("v") == 0 and hi.get("k") == "const" and \
+                            ((hi["c"].get("named") or "").endswith("SETSUM_COLUMNS") or hi["c"].get("v") == 8)
+                ctx.check(R, f, "range-is-all-columns", ok, "the range is 0..SETSUM_COLUMNS", "the column range is not 0..SETSUM_COLUMNS", pt=head)
+            if some is None:
+                continue
+            stores = []
+            for b in f.blocks:
+                for j, st in enumerate(b.st):
+                    if st["s"] == "=" and st["lhs"]["p"] and (any(isinstance(e, dict) and ("ix" in e or "cix" in e) for e in st["lhs"]["p"]) or st["lhs"]["p"] == ["*"]):
+                        stores.append((b.idx, j))
+            stores = [sp for sp in stores if P.reach(f, [(some, 0)], [sp], avoid={head}) is not None]
+            byp = P.reach(f, [(some, 0)], [head], avoid=set(stores)) if stores else True
+            ctx.check(R, f, "every-iteration-stores", bool(stores) and byp is None, "every iteration stores its column",
+                      "an iteration of the column loop can finish without storing its column", pt=head, path=byp if isinstance(byp, list) else None)
+            ex = P.reach(f, [(some, 0)], P.return_points(f), avoid={head})
+            ctx.check(R, f, "no-early-exit", ex is None, "the loop ends only when the iterator is exhausted", "the column loop can be left before the last column", pt=head, path=ex)
+    ctx.floor(R, "column loops", n, 3)
+    f = ctx.fn(R, S + "invert_state")
+    if f:
+        subs = [((b.idx, j), st) for b in f.blocks for j, st in enumerate(b.st)
+                if st["s"] == "=" and st["rv"]["r"] == "bin" and st["rv"]["op"] in ("Sub", "SubWithOverflow", "SubUnchecked")]
+        ctx.check(R, f, "one-subtraction", len(subs) == 1, "invert_state performs one subtraction per column", "expected one subtraction in invert_state, found %d" % len(subs))
+        for sp, st in subs:
+            def classify(op_):
+                kind = "?"
+                for q in P.origins(f, op_):
+                    if q["k"] == "const" and (q.get("named") or "").endswith("SETSUM_PRIMES"):
+                        kind = "prime"
+                    if q["k"] == "param" and q["i"] == 1:
+                        kind = "state"
+                return kind
+
+            def src(o):
+                """('prime'|'state'|'?', position): position is the index variable, or the zip the element was paired by."""
+                kind, idx = "?", None
+                for _dp, d in _stores(f, o["pl"]["l"]) if o.get("pl") else []:
+                    a = d["rv"].get("a") if d["rv"]["r"] == "use" else None
+                    if not a or not a.get("pl"):
+                        continue
+                    ixs = [e for e in a["pl"]["p"] if isinstance(e, dict) and "ix" in e]
+                    if ixs:
+                        idx = K.root_local(f, {"k": "copy", "pl": {"l": ixs[0]["ix"], "p": []}})
+                        kind = classify({"k": "copy", "pl": {"l": a["pl"]["l"], "p": []}})
+                    elif a["pl"]["p"] == ["*"]:
+                        # `*elem` where elem is component k of the pair a Zip yielded
+                        for _ep, e_ in _stores(f, a["pl"]["l"]):
+                            ea = e_["rv"].get("a") if e_["rv"]["r"] == "use" else None
+                            fes = [x for x in (ea or {}).get("pl", {}).get("p", []) if isinstance(x, dict) and "f" in x]
+                            if not ea or len(fes) != 2 or fes[1].get("of") != "()":
+                                continue
+                            k_ = int(fes[1]["f"])
+                            for q in P.origins(f, {"k": "copy", "pl": {"l": ea["pl"]["l"], "p": []}}, through_calls=False):
+                                if q["k"] == "call" and q["callee"].endswith("zip::Zip as core::iter::traits::iterator::Iterator>::next"):
+                                    zb = K.ref_base(f, q["t"]["args"][0])
+                                    for z in P.origins(f, {"k": "copy", "pl": {"l": zb, "p": []}}) if zb is not None else []:
+                                        if z["k"] == "call" and z["callee"].endswith("Iterator::zip") and k_ < 2:
+                                            kind = classify(z["t"]["args"][k_])
+                                            idx = ("zip", z["pt"])
+                return kind, idx
+            a, b = src(st["rv"]["a"]), src(st["rv"]["b"])
+            ctx.check(R, f, "prime-minus-column", a[0] == "prime" and b[0] == "state" and a[1] is not None and a[1] == b[1],
+                      "the value stored is SETSUM_PRIMES[i] - state[i] for the same i", "invert_state does not compute SETSUM_PRIMES[i] - state[i] (found %s - %s)" % (a, b), pt=sp)
+
+
+def _stores(f, l):
+    return [((b.idx, j), st) for b in f.blocks for j, st in enumerate(b.st) if st["s"] == "=" and not st["lhs"]["p"] and st["lhs"]["l"] == l]
